@@ -72,7 +72,7 @@ static void gen_model(struct sim_prng *r)
 	P.m_pl = PICK(r, 0, 1, 2, 2);
 	P.m_init_ev = PICK(r, 1, 1, 2, 3);
 	P.m_init_t0 = PICK(r, 0, 0, 1);
-	P.m_pred = PICK(r, 0, 0, 0, 1, 2);
+	P.m_pred = PICK(r, 0, 0, 0, 0, 0, 0, 1, 1, 2, 2, 4);
 	if(P.m_pred == 2)
 		P.m_init_t0 = 1;
 	P.m_mem = PICK(r, 0, 1, 2, 2);
